@@ -33,8 +33,8 @@ CFG = {
                  "parsing/ast.rs Display of Expression and of the node structs",
                  "docs/content/_index.md 'Operator precedence' (levels), operator semantics sections (evaluator)"],
     "assumptions": ["associativity is not stated by the documentation: `**` groups to the right, every other operator to the left (Jinja2/Python convention)",
-                    "the round-trip theorem covers the whole expression grammar except slices, array/map literals and list comprehensions (parsed by dedicated "
-                    "functions); those are covered by the correspondence run only",
+                    "the round-trip theorem covers the whole expression grammar except array/map literals and list comprehensions (parsed by dedicated "
+                    "functions, atoms for precedence); those are covered by the correspondence run only",
                     "inline component calls `<name .../>` inside expressions are outside the model (token streams containing them are skipped)",
                     "implementation == model only on the cases enumerated by the harness"],
 }
